@@ -104,6 +104,21 @@ def hooked(inner):
     return m
 
 
+def lagrange_of(idp, spp):
+    """the interpolating value for identifier idp over the key set of signing package spp:
+    derive_interpolating_value(id, sp) or its body compute_lagrange_coefficient(keys(sp.signing_commitments), None, id)"""
+    def m(t):
+        if is_call(t, name="derive_interpolating_value"):
+            return idp(t[2][0]) and spp(t[2][1])
+        if is_call(t, name="compute_lagrange_coefficient"):
+            s, x, xi = t[2][0], t[2][1], t[2][2]
+            keys = mentions(s, lambda u: is_call(u, name="keys") and fld(spp, "signing_commitments")(u[2][0]))
+            none = x[0] == "agg" and x[3] == "None"
+            return keys and none and idp(xi)
+        return False
+    return m
+
+
 def contains_term(inner):
     return lambda t: mentions(t, inner)
 
@@ -342,7 +357,7 @@ def accumulation_sites(fn, lp, innermost_only=None):
     """{written outside-defined local: set(blocks in loop that write it)}; direct assignments and calls that receive
     a `&mut` to it.  The loop's own iterator and drop flags are excluded."""
     outside = _outside_defs(fn, lp)
-    roots = _ref_roots(fn)
+    roots = fn.ref_roots()
     iter_locals = set()
     for b in lp["body"]:
         t = fn.blocks[b].term
@@ -556,3 +571,45 @@ def reductions(ctx, key, adaptors=None, skip=None, brk=None, min_loops=0, rule="
                       "under the reviewed condition): some element is left out of the reduction"
                       % (loc_of(f, lp["header"]), nm), loc_of(f, lp["header"]))
     return lr
+
+
+def forall_loop(ctx, fn, rule, what, src_pred, mechanisms, sinks=None, require_fail_err=True):
+    """A per-element refusal: some loop over a source matching src_pred (no adaptors on it) in which every completed
+    iteration crosses a PASS edge of a mechanism whose FAIL side refuses, which has no early exit, and whose
+    exhaustion edge separates entry from the sinks (default: Ok returns).  mechanisms get the loop item matcher."""
+    v = FnView.get(ctx.prog, fn)
+    sinks = ok_sinks(fn) if sinks is None else sinks
+    found = []
+    for lp in loop_report(ctx.prog, fn):
+        it = lp["iter_term"]
+        if it is None or it[0] != "iter" or not src_pred(it[1]):
+            continue
+        item = lambda t, it=it: isinstance(t, tuple) and t[0] == "some" and is_call(t[1], name="next") and t[1][2][0] == it
+        edges = set()
+        for name, mk in mechanisms:
+            m = mk(item)
+            for (e, fact) in v.facts:
+                if e[0] not in lp["body"] or m(fact) != "pass":
+                    continue
+                fails = [e2 for (e2, f2) in v.facts if e2[0] == e[0] and m(f2) == "fail"]
+                if require_fail_err and not all(fail_is_error(fn, e2) for e2 in fails):
+                    continue
+                edges.add(e)
+        _, back = body_reach(fn, lp, list(lp["some_targets"]), removed_edges=edges)
+        early = [e for (e, c) in lp["exits"] if c == "break"]
+        exh = {e for (e, c) in lp["exits"] if c == "exhausted"}
+        bypass = sep(fn, exh, sinks)
+        found.append((lp, back, early, bypass))
+        if not back and not early and not bypass and edges:
+            ctx.ok(rule, fn.key, what, {"loop": loc_of(fn, lp["header"]), "pass_edges": sorted(edges)[:4]})
+            return lp
+    why = "no loop over the expected collection was found"
+    if found:
+        lp, back, early, bypass = found[0]
+        why = ("an iteration can complete without passing the check" if back else
+               "the loop can be left early without an error" if early else
+               "the result can be produced without running the loop to exhaustion" if bypass else
+               "the check was not found in the loop")
+    ctx.violation(rule, fn.key, what, "per-element refusal '%s' does not hold for every element: %s" % (what, why),
+                  fn.loc)
+    return None
